@@ -8,6 +8,7 @@ import sys
 import threading
 import time
 import typing
+import warnings
 
 from vf import common, driver, reqs, validate
 from vf.common import Check, Scratch
@@ -128,6 +129,122 @@ def zip_cache_enumeration(chk: Check, sc: Scratch, stride: int) -> None:
                     return
                 chk.case(("zip", f.rsplit(".", 1)[-1], k), None)
     finally:
+        site.close()
+
+
+class DiskFullShim:
+    """`pickle` stand-in for one request: the dump reaches the file up to byte N, then the write
+    fails with ENOSPC (a full disk), exactly as the kernel would report it to the real writer."""
+
+    def __init__(self, n):
+        self.n = n
+        self.fired = 0
+        for name in ("HIGHEST_PROTOCOL", "PickleError", "UnpicklingError", "PicklingError", "loads", "dumps", "load"):
+            setattr(self, name, getattr(real_pickle, name))
+
+    def dump(self, obj, fp, protocol=None):
+        data = real_pickle.dumps(obj, protocol)
+        if self.n >= len(data):
+            fp.write(data)
+            return
+        fp.write(data[:self.n])
+        fp.flush()
+        self.fired += 1
+        import errno
+        raise OSError(errno.ENOSPC, os.strerror(errno.ENOSPC))
+
+
+def writer_crash(chk: Check, sc: Scratch, stride: int, handlers, hl_name: str, n_entries: int = 6) -> None:
+    """The *writer itself* dies (killed after N bytes: a forked copy of the harness serves the
+    request under RLIMIT_FSIZE=N, the kernel kills it with SIGXFSZ at byte N) or meets a full
+    disk (ENOSPC after N bytes), while an older, expired cache of the directory's previous
+    contents exists.  The next request must show the directory as it is now."""
+    import resource
+    import signal
+    root = sc.sub("wc-" + hl_name)
+    t = Tree()
+    for i in range(n_entries):
+        t.file("%c-2023.txt" % (97 + i), "report %d\n" % i)
+    t.file("sub/x.txt", "x")
+    t.materialize(root)
+    site = driver.Site(root, handlers=handlers, overrides={("handlers.dir.DirHandler", "cachetime"): "1000"})
+    saved = dirmod.pickle
+    try:
+        req0, _ = reqs.render("gopher", b"/")
+        cpath = os.path.join(os.fsencode(root), CACHE)
+        site.request(req0)
+        if not os.path.exists(cpath):
+            chk.note_inconclusive("no cache file was produced")
+            return
+        old = open(cpath, "rb").read()
+        # the directory changes (same-length names: the new pickle has the old one's layout)
+        for i in range(n_entries):
+            os.rename(os.path.join(root, "%c-2023.txt" % (97 + i)), os.path.join(root, "%c-2024.txt" % (97 + i)))
+        ref = references(site, root, b"/")
+        site.request(req0)
+        new = open(cpath, "rb").read()
+        if new == old:
+            chk.note_inconclusive("the directory change did not change the cache file")
+            return
+        size = len(new)
+        cuts = sorted(set(list(range(0, size + 1, stride)) + [0, 1, 2, size - 1, size]))
+
+        def stale():
+            with open(cpath, "wb") as fp:
+                fp.write(old)
+            past = time.time() - 5000
+            os.utime(cpath, (past, past))
+
+        for j, n in enumerate(cuts):
+            for mode in ("killed", "disk-full"):
+                stale()
+                if mode == "killed":
+                    sys.stdout.flush()
+                    sys.stderr.flush()
+                    with warnings.catch_warnings():
+                        warnings.simplefilter("ignore")
+                        pid = os.fork()
+                    if pid == 0:
+                        try:
+                            signal.signal(signal.SIGXFSZ, signal.SIG_DFL)
+                            resource.setrlimit(resource.RLIMIT_FSIZE, (n, resource.getrlimit(resource.RLIMIT_FSIZE)[1]))
+                            site.request(req0)
+                        finally:
+                            os._exit(0)
+                    _, status = os.waitpid(pid, 0)
+                    if os.WIFSIGNALED(status) and os.WTERMSIG(status) == signal.SIGXFSZ:
+                        chk.count("writers_killed_by_kernel")
+                    elif n < size:
+                        chk.count("writers_not_killed")
+                else:
+                    shim = DiskFullShim(n)
+                    dirmod.pickle = shim
+                    try:
+                        site.request(req0)
+                    finally:
+                        dirmod.pickle = saved
+                    chk.count("writers_hit_full_disk", shim.fired)
+                try:
+                    left = open(cpath, "rb").read()
+                except OSError:
+                    left = None
+                view = VIEWS[j % len(VIEWS)]
+                req, tls = reqs.render(view, b"/")
+                r = site.request(req, tls=tls)
+                got = validate.normalize_ts(r.data)
+                chk.count("requests_after_writer_crash")
+                if got != ref[view] or r.escaped:
+                    what = "empty-reply" if not r.data else ("error-reply" if validate.validate(r, req).klass == "error"
+                                                             else ("stale-or-mixed-listing" if b"2023" in r.data else "wrong-listing"))
+                    chk.witness("C11/writer-%s-mid-write:%s" % (mode, what),
+                                {"handler": hl_name, "bytes_written": n, "new_size": size, "old_size": len(old), "view": view,
+                                 "left_on_disk": None if left is None else len(left), "reply": r.data[:300], "log": r.log[:3]})
+                    return
+                chk.case((hl_name, "writer-" + mode, n), {"handler": hl_name, "mode": mode, "bytes_written": n, "size": size,
+                                                          "left_on_disk": None if left is None else len(left)}
+                         if j % 101 == 0 else None)
+    finally:
+        dirmod.pickle = saved
         site.close()
 
 
@@ -252,6 +369,8 @@ def main() -> int:
                 prefix_enumeration(chk, sc, i + 100 * shard, n + (shard if not quick else 0), stride, hl[1], hl[0])
             if quick or shard == 0:
                 zip_cache_enumeration(chk, sc, 5 if quick else 1)
+            hl = [("umn", None), ("plain", driver.HANDLERS_PLAINDIR)][shard % 2]
+            writer_crash(chk, sc, 7 if quick else 1, hl[1], hl[0], n_entries=6 + (shard if not quick else 0))
             reader_writer_race(chk, sc, rounds=8 if quick else 20, per_round=150)
     return chk.finish(
         rule="case = (cache file, cut position): the file the server wrote is replaced by its prefix of length k "
@@ -259,7 +378,9 @@ def main() -> int:
              "tier), by zeros, or by a half-garbage file, and the next listing (protocol chosen round-robin) must be "
              "byte-identical to the uncached listing; same for the three files of the ZIP index cache; plus threads "
              "reading while others rewrite, with a pause inserted between truncate and dump (reads overlapping a "
-             "write are counted)",
+             "write are counted); plus the writer itself dying after N bytes (a forked copy of the harness serves the "
+             "rewriting request under RLIMIT_FSIZE=N and is killed by the kernel's SIGXFSZ; or the write fails with "
+             "ENOSPC after N bytes) while an expired cache of the directory's previous contents is on disk",
         assumptions=["the pause between truncation and completion of the dump is inserted by substituting the name "
                      "`pickle` inside pygopherd.handlers.dir with a delegating shim (harness-side, no source change)"],
         exhaustive=False)
